@@ -439,9 +439,10 @@ def readString (old : Bytes) (tag : Nat) (require : Bool) : RM Bytes := fun r =>
     else (.error .mismatch, r1)
 
 /-- `Reader.ReadSliceInt8 / ReadSliceUint8` (`len` is the int32 argument); returns the new slice
-    (`old` when `len ≤ 0`) -/
-def readSlice8 (old : Bytes) (len : Int) : RM Bytes := fun r =>
-  if len ≤ 0 then (.ok old, r)
+    (`nil` when `len ≤ 0`; the previous content `old` of the target is irrelevant since the fix
+    "an empty byte vector on the wire clears the target") -/
+def readSlice8 (_old : Bytes) (len : Int) : RM Bytes := fun r =>
+  if len ≤ 0 then (.ok [], r)
   else readFull len.toNat r
 
 /-- `Reader.ReadBytes`: no `len ≤ 0` guard: `make([]byte, len)` panics for negative `len` -/
